@@ -95,8 +95,25 @@ const PARSERS: &[&str] = &[
     "blte", "encoding", "aidx", "aidxc", "agroup", "root", "install", "download", "size", "tvfs", "tvfsblte",
     "parchive", "pindex", "zbsdiff", "zbsparse", "cfgbuild", "cfgcdn", "cfgpatch", "cfgproduct", "cfgkeyring",
     "bpsv", "espec", "mime", "mimesniff", "idx", "updsec", "residency", "respage", "lru", "shmem", "buildinfo",
-    "localhdr",
+    "localhdr", "mimebpsv", "encchunk",
 ];
+
+// ---------------------------------------------------------------------------------------------
+// key store handed to the BLTE decoders. An encrypted chunk is only read beyond its key name when
+// `TactKeyStore::get` finds the named key (the lookup precedes the IV / type reads), so the
+// generators name keys that ARE in the store: one built into `TactKeyStore::new()` and one added
+// here (the name used by the hand seed `blte_multi_enc`), next to names that are not.
+// ---------------------------------------------------------------------------------------------
+const KEY_BUILTIN: u64 = 0xFA50_5078_126A_CB3E;
+const KEY_ADDED: u64 = 0x0807_0605_0403_0201;
+const KEY_ADDED_BYTES: [u8; 16] = [0x5A; 16];
+const KEYS_UNKNOWN: [u64; 2] = [0x1111_1111_1111_1111, 0xFA50_5078_126A_CB3F];
+
+fn key_store() -> cascette_crypto::TactKeyStore {
+    let mut ks = cascette_crypto::TactKeyStore::new();
+    ks.add(cascette_crypto::TactKey::new(KEY_ADDED, KEY_ADDED_BYTES));
+    ks
+}
 
 fn with_file<T>(dir: &std::path::Path, name: &str, data: &[u8], f: impl FnOnce(&std::path::Path) -> T) -> T {
     let p = dir.join(name);
@@ -111,7 +128,7 @@ fn run_parser(name: &str, d: &[u8], tmp: &std::path::Path) -> bool {
     match name {
         "blte" => match cascette_formats::blte::BlteFile::parse(d) {
             Ok(b) => {
-                let ks = cascette_crypto::TactKeyStore::new();
+                let ks = key_store();
                 b.decompress_with_keys(&ks).is_ok()
             }
             Err(_) => false,
@@ -143,6 +160,9 @@ fn run_parser(name: &str, d: &[u8], tmp: &std::path::Path) -> bool {
         "espec" => cascette_formats::espec::parse(&String::from_utf8_lossy(d)).is_ok(),
         "mime" => cascette_protocol::mime_parser::parse_v1_mime_response(d).is_ok(),
         "mimesniff" => cascette_protocol::mime_parser::is_v1_mime_response(d),
+        "mimebpsv" => cascette_protocol::mime_parser::parse_v1_mime_to_bpsv(d).is_ok(),
+        // one encrypted chunk payload (without the 'E' mode byte), decoded directly
+        "encchunk" => cascette_formats::blte::decrypt_chunk_with_keys(d, &key_store(), 0).is_ok(),
         "idx" => with_file(tmp, "0000000001.idx", d, |p| {
             let mut m = cascette_client_storage::index::IndexManager::new(tmp);
             m.load_index(1, p).is_ok()
@@ -396,7 +416,7 @@ fn parse_edits(s: &str) -> Option<Vec<Edit>> {
 /// a growing Vec doubles). The LZ4 size prefix (≤ 1 GiB, documented cap) is added per input.
 fn bound_ck(parser: &str) -> (usize, usize) {
     match parser {
-        "blte" | "tvfsblte" | "zbsdiff" | "parchive" => (2100, 8 << 20),
+        "blte" | "tvfsblte" | "zbsdiff" | "parchive" | "encchunk" => (2100, 8 << 20),
         _ => (64, 8 << 20),
     }
 }
@@ -871,6 +891,8 @@ fn fields(parser: &str) -> Vec<(i64, usize, bool)> {
         "lru" => vec![(0, 2, false), (2, 2, false), (20, 4, false), (24, 4, false)],
         "residency" => vec![(0, 1, false), (1, 4, false)],
         "localhdr" => vec![(0x10, 4, true), (0x14, 2, false)],
+        // key-name size, first/last key-name byte, IV size, the type byte behind a 4- and an 8-byte IV
+        "encchunk" => vec![(0, 1, false), (1, 1, false), (8, 1, false), (9, 1, false), (14, 1, false), (18, 1, false)],
         _ => vec![],
     }
 }
@@ -1040,6 +1062,29 @@ fn hand_seeds(c: &mut Ctx) -> Vec<(String, String)> {
     let mut enc_chunk = b"E".to_vec();
     enc_chunk.extend_from_slice(&[8, 1, 2, 3, 4, 5, 6, 7, 8, 4, 9, 9, 9, 9, 0x53, 1, 2, 3]);
     add(c, &["blte"], "blte_multi_enc", seed_blte_multi(0x0F, &[&enc_chunk]));
+    // encrypted chunks naming keys that ARE in the key store (`key_store()`), 4- and 8-byte IV,
+    // Salsa20 and ARC4, inner mode N and Z; directly and inside a BLTE file
+    {
+        let zin: Vec<u8> = {
+            let mut z = b"Z".to_vec();
+            z.extend_from_slice(&cascette_formats::blte::compress_chunk(&[7u8; 200], cascette_formats::blte::CompressionMode::ZLib).unwrap_or_default());
+            z
+        };
+        let forms: [(&str, u64, &[u8], u8, &[u8]); 5] = [
+            ("s4n", KEY_BUILTIN, &[1, 2, 3, 4], 0x53, b"Nhello encrypted"),
+            ("s8n", KEY_BUILTIN, &[1, 2, 3, 4, 5, 6, 7, 8], 0x53, b"Nhello encrypted"),
+            ("s8z", KEY_ADDED, &[9, 8, 7, 6, 5, 4, 3, 2], 0x53, &zin),
+            ("a4n", KEY_ADDED, &[1, 2, 3, 4], 0x41, b"Nhello encrypted"),
+            ("s8e", KEY_BUILTIN, &[1, 2, 3, 4, 5, 6, 7, 8], 0x53, b""),
+        ];
+        for (tag, name, iv, et, plain) in forms {
+            let p = enc_wellformed(name, iv, et, plain, 0);
+            let mut chunk = b"E".to_vec();
+            chunk.extend_from_slice(&p);
+            add(c, &["encchunk"], &format!("encchunk_{tag}"), p);
+            add(c, &["blte"], &format!("blte_enc_{tag}"), seed_blte_multi(0x0F, &[&chunk]));
+        }
+    }
     // encoding
     add(c, &["encoding"], "enc_min", seed_encoding_min());
     // install / download / size
@@ -1095,11 +1140,16 @@ fn hand_seeds(c: &mut Ctx) -> Vec<(String, String)> {
     add(c, &["cfgcdn"], "cdn_min", b"# CDN Configuration\n\narchives = 0017a402f556fbece46c38dc431a2c9b 00b79cc0eebdd26437c7e92e57ac7f5c\narchives-index-size = 173068 53588\narchive-group = 00872b40344ef1a3dac4aff09588603c\nfile-index = 00872b40344ef1a3dac4aff09588603c\nfile-index-size = 41228\n".to_vec());
     add(c, &["cfgpatch"], "patchcfg_min", b"# Patch Configuration\n\npatch = 00112233445566778899aabbccddeeff\npatch-size = 1234\npatch-entry = encoding 00112233445566778899aabbccddeeff 10 00112233445566778899aabbccddeeff 20 b:{*=z} 00112233445566778899aabbccddeeff 5 00112233445566778899aabbccddeeff 7\n".to_vec());
     let mime = b"MIME-Version: 1.0\r\nContent-Type: multipart/alternative; boundary=\"abc\"\r\n\r\n--abc\r\nContent-Type: text/plain\r\nContent-Disposition: version\r\n\r\nRegion!STRING:0|BuildId!DEC:4\n## seqn = 1\nus|5\n\r\n--abc--\r\nChecksum: 0123456789abcdef0123456789abcdef0123456789abcdef0123456789abcdef\r\n".to_vec();
-    add(c, &["mime", "mimesniff"], "mime_min", mime);
+    add(c, &["mime", "mimebpsv", "mimesniff"], "mime_min", mime);
+    // complete replies whose epilogue carries the RIGHT checksum (the MIME body behind it is reached):
+    // multipart and plain, CRLF / LF / no terminator
+    add(c, &["mime", "mimebpsv", "mimesniff"], "mime_ok_multi", mime_with_checksum(MIME_MULTIPART, b"\r\n"));
+    add(c, &["mime", "mimebpsv", "mimesniff"], "mime_ok_plain", mime_with_checksum(MIME_PLAIN, b"\n"));
+    add(c, &["mime", "mimebpsv"], "mime_ok_noterm", mime_with_checksum(MIME_PLAIN, b""));
     // a multi-byte character straddling byte 512 (the repaired [..512] site)
     let mut m2 = vec![b'a'; 511];
     m2.extend_from_slice("é content-type: multipart/mixed".as_bytes());
-    add(c, &["mime", "mimesniff"], "mime_utf8_512", m2);
+    add(c, &["mime", "mimebpsv", "mimesniff"], "mime_utf8_512", m2);
     // client storage
     add(c, &["idx"], "idx_min", seed_idx_min());
     add(c, &["updsec"], "updsec_zero", vec![0u8; 1024]);
@@ -1187,6 +1237,214 @@ fn hand_seeds(c: &mut Ctx) -> Vec<(String, String)> {
     out
 }
 
+
+// ---- SHA-256 (FIPS 180-4), for V1 MIME epilogues whose checksum is the right one ---------------
+fn sha256(msg: &[u8]) -> [u8; 32] {
+    const K: [u32; 64] = [
+        0x428a2f98, 0x71374491, 0xb5c0fbcf, 0xe9b5dba5, 0x3956c25b, 0x59f111f1, 0x923f82a4, 0xab1c5ed5, 0xd807aa98, 0x12835b01,
+        0x243185be, 0x550c7dc3, 0x72be5d74, 0x80deb1fe, 0x9bdc06a7, 0xc19bf174, 0xe49b69c1, 0xefbe4786, 0x0fc19dc6, 0x240ca1cc,
+        0x2de92c6f, 0x4a7484aa, 0x5cb0a9dc, 0x76f988da, 0x983e5152, 0xa831c66d, 0xb00327c8, 0xbf597fc7, 0xc6e00bf3, 0xd5a79147,
+        0x06ca6351, 0x14292967, 0x27b70a85, 0x2e1b2138, 0x4d2c6dfc, 0x53380d13, 0x650a7354, 0x766a0abb, 0x81c2c92e, 0x92722c85,
+        0xa2bfe8a1, 0xa81a664b, 0xc24b8b70, 0xc76c51a3, 0xd192e819, 0xd6990624, 0xf40e3585, 0x106aa070, 0x19a4c116, 0x1e376c08,
+        0x2748774c, 0x34b0bcb5, 0x391c0cb3, 0x4ed8aa4a, 0x5b9cca4f, 0x682e6ff3, 0x748f82ee, 0x78a5636f, 0x84c87814, 0x8cc70208,
+        0x90befffa, 0xa4506ceb, 0xbef9a3f7, 0xc67178f2,
+    ];
+    let mut h: [u32; 8] = [0x6a09e667, 0xbb67ae85, 0x3c6ef372, 0xa54ff53a, 0x510e527f, 0x9b05688c, 0x1f83d9ab, 0x5be0cd19];
+    let mut p = msg.to_vec();
+    p.push(0x80);
+    while p.len() % 64 != 56 {
+        p.push(0);
+    }
+    p.extend_from_slice(&((msg.len() as u64) * 8).to_be_bytes());
+    for blk in p.chunks(64) {
+        let mut w = [0u32; 64];
+        for i in 0..16 {
+            w[i] = u32::from_be_bytes([blk[4 * i], blk[4 * i + 1], blk[4 * i + 2], blk[4 * i + 3]]);
+        }
+        for i in 16..64 {
+            let s0 = w[i - 15].rotate_right(7) ^ w[i - 15].rotate_right(18) ^ (w[i - 15] >> 3);
+            let s1 = w[i - 2].rotate_right(17) ^ w[i - 2].rotate_right(19) ^ (w[i - 2] >> 10);
+            w[i] = w[i - 16].wrapping_add(s0).wrapping_add(w[i - 7]).wrapping_add(s1);
+        }
+        let mut v = h;
+        for i in 0..64 {
+            let s1 = v[4].rotate_right(6) ^ v[4].rotate_right(11) ^ v[4].rotate_right(25);
+            let ch = (v[4] & v[5]) ^ (!v[4] & v[6]);
+            let t1 = v[7].wrapping_add(s1).wrapping_add(ch).wrapping_add(K[i]).wrapping_add(w[i]);
+            let s0 = v[0].rotate_right(2) ^ v[0].rotate_right(13) ^ v[0].rotate_right(22);
+            let maj = (v[0] & v[1]) ^ (v[0] & v[2]) ^ (v[1] & v[2]);
+            let t2 = s0.wrapping_add(maj);
+            v = [t1.wrapping_add(t2), v[0], v[1], v[2], v[3].wrapping_add(t1), v[4], v[5], v[6]];
+        }
+        for i in 0..8 {
+            h[i] = h[i].wrapping_add(v[i]);
+        }
+    }
+    let mut out = [0u8; 32];
+    for i in 0..8 {
+        out[4 * i..4 * i + 4].copy_from_slice(&h[i].to_be_bytes());
+    }
+    out
+}
+
+const MIME_MULTIPART: &[u8] = b"MIME-Version: 1.0\r\nContent-Type: multipart/alternative; boundary=\"abc\"\r\n\r\n--abc\r\nContent-Type: text/plain\r\nContent-Disposition: version\r\n\r\nRegion!STRING:0|BuildId!DEC:4\n## seqn = 1\nus|5\n\r\n--abc--\r\n";
+const MIME_PLAIN: &[u8] = b"Content-Type: text/plain\r\n\r\nRegion!STRING:0|BuildId!DEC:4\n## seqn = 1\nus|5\n";
+const MIME_PARSERS: [&str; 3] = ["mime", "mimebpsv", "mimesniff"];
+
+/// a V1 reply: `message` followed by the epilogue line carrying ITS SHA-256 (the checksum passes,
+/// so the MIME body behind it is reached)
+fn mime_with_checksum(message: &[u8], term: &[u8]) -> Vec<u8> {
+    let mut d = message.to_vec();
+    d.extend_from_slice(b"Checksum: ");
+    d.extend_from_slice(hex(&sha256(message)).as_bytes());
+    d.extend_from_slice(term);
+    d
+}
+
+/// V1 MIME epilogue family: after each message, a `Checksum: ` line whose content has EVERY length
+/// 0..=80 (the digest is 64), ending the input with no terminator / LF / CRLF / a bare CR / more data
+/// behind it, filled with hex digits (for length 64: the right digest, and a wrong one), hex digits
+/// with a non-hex last character, or bytes that `from_utf8_lossy` expands. Together with the
+/// truncation of the complete replies at every byte offset (section 3) this is "a reply cut off
+/// anywhere while the epilogue line was arriving", through all three entry points.
+fn mime_epilogue_cases(c: &mut Ctx, thorough: bool) {
+    let two = mime_with_checksum(MIME_PLAIN, b"\r\n");
+    let bases: [(&str, Vec<u8>); 4] =
+        [("mimeb_multi", MIME_MULTIPART.to_vec()), ("mimeb_plain", MIME_PLAIN.to_vec()), ("mimeb_none", vec![]), ("mimeb_two", two)];
+    let maxl = if thorough { 140 } else { 80 };
+    for (id, base) in bases {
+        let digest = hex(&sha256(&base));
+        c.seed(id, base);
+        for l in 0..=maxl {
+            // fill kinds: 0 = digest characters (cycled), 1 = the same with a non-hex last character,
+            // 2 = 0xFF bytes (each becomes a 3-byte U+FFFD in the lossy string), 3 = a wrong digest
+            for fill in 0..4u8 {
+                if fill == 3 && l != 64 {
+                    continue;
+                }
+                let mut content: Vec<u8> = match fill {
+                    2 => vec![0xFF; l],
+                    3 => vec![b'0'; l],
+                    _ => digest.as_bytes().iter().cycle().take(l).copied().collect(),
+                };
+                if fill == 1 {
+                    if let Some(x) = content.last_mut() {
+                        *x = b'g';
+                    }
+                }
+                let terms: &[&[u8]] = if fill == 0 { &[b"", b"\n", b"\r\n", b"\r", b"\r\n\r\n--abc--\r\n"] } else { &[b"", b"\n", b"\r\n"] };
+                for term in terms {
+                    let mut line = b"Checksum: ".to_vec();
+                    line.extend_from_slice(&content);
+                    line.extend_from_slice(term);
+                    for p in MIME_PARSERS {
+                        c.case(p, id, &[Edit::App(line.clone())], "mime-epilogue");
+                    }
+                    c.s.tally(&format!("mime-epilogue:len{}", if l < 54 { "<54" } else if l < 64 { "54..63" } else if l == 64 { "64" } else { ">64" }));
+                }
+            }
+        }
+    }
+}
+
+/// `[key_name_size][key name LE][iv_size][IV …][type][ciphertext]`, cut or zero-padded to `total`
+/// bytes: the payload of an encrypted chunk (without the 'E' mode byte). The type byte sits where
+/// the decoder looks for it behind an IV of min(iv_size, 16) bytes.
+fn enc_payload(kns: u8, key: u64, ivs: u8, et: u8, total: usize) -> Vec<u8> {
+    let mut d = vec![kns];
+    d.extend_from_slice(&key.to_le_bytes());
+    d.push(ivs);
+    d.extend((0..ivs.min(16)).map(|i| 0x11 + i));
+    d.push(et);
+    d.extend((0..48u8).map(|i| 0xC0 ^ i));
+    d.resize(total, 0);
+    d
+}
+
+/// how far `decrypt_chunk_with_keys` gets on a payload (input-distribution tally only; the verdict
+/// itself is predicted by the Lean front end `Blte.encFront`)
+fn enc_stage(d: &[u8]) -> &'static str {
+    if d.len() < 16 {
+        return "floor";
+    }
+    if d[0] != 8 {
+        return "key-name-size";
+    }
+    let mut n = [0u8; 8];
+    n.copy_from_slice(&d[1..9]);
+    if key_store().get(u64::from_le_bytes(n)).is_none() {
+        return "key-unknown";
+    }
+    let iv = d[9] as usize;
+    if iv != 4 && iv != 8 {
+        return "known-key:iv-size";
+    }
+    if d.len() < 10 + iv {
+        return "known-key:iv-short";
+    }
+    if d.len() < 11 + iv {
+        return "known-key:type-short";
+    }
+    match d[10 + iv] {
+        0x53 | 0x41 => "known-key:decrypt",
+        _ => "known-key:type-unknown",
+    }
+}
+
+/// encrypted-chunk header family: key names that ARE in the key store (built-in, added) and that
+/// are not × iv_size {0,1,4,8,9,255} × type {Salsa20, ARC4, unknown} × EVERY payload length 0..=40,
+/// plus key-name sizes other than 8; each payload decoded directly (`decrypt_chunk_with_keys`) and
+/// as the single chunk / the second chunk of a BLTE file (`BlteFile::parse` + `decompress_with_keys`).
+fn enc_header_cases(c: &mut Ctx, thorough: bool) {
+    let maxl = if thorough { 64 } else { 40 };
+    let mut combos: Vec<(u8, u64, u8, u8)> = vec![];
+    for key in [KEY_BUILTIN, KEY_ADDED, KEYS_UNKNOWN[0], KEYS_UNKNOWN[1]] {
+        for ivs in [0u8, 1, 4, 8, 9, 255] {
+            for et in [0x53u8, 0x41, 0x00] {
+                combos.push((8, key, ivs, et));
+            }
+        }
+    }
+    for kns in [0u8, 7, 9, 255] {
+        for ivs in [4u8, 8] {
+            combos.push((kns, KEY_BUILTIN, ivs, 0x53));
+        }
+    }
+    for (kns, key, ivs, et) in combos {
+        for l in 0..=maxl {
+            let p = enc_payload(kns, key, ivs, et, l);
+            c.s.tally(&format!("enc-stage:{}", enc_stage(&p)));
+            c.case("encchunk", "empty", &[Edit::App(p.clone())], "enc-header");
+            let mut chunk = b"E".to_vec();
+            chunk.extend_from_slice(&p);
+            c.case("blte", "empty", &[Edit::App(seed_blte_multi(0x0F, &[&chunk]))], "enc-header");
+            if ivs == 8 || thorough {
+                // second chunk: block index 1 enters the Salsa20 nonce
+                c.case("blte", "empty", &[Edit::App(seed_blte_multi(0x10, &[b"Nab", &chunk]))], "enc-header");
+            }
+        }
+    }
+}
+
+/// a well-formed encrypted chunk payload: `plain` (mode byte + data) under Salsa20 / ARC4 with the
+/// key `name` of the key store and a 4- or 8-byte IV
+fn enc_wellformed(name: u64, iv: &[u8], et: u8, plain: &[u8], index: usize) -> Vec<u8> {
+    let ks = key_store();
+    let key = ks.get(name).copied().unwrap_or([0; 16]);
+    let ct = if et == 0x53 {
+        cascette_crypto::salsa20::encrypt_salsa20(plain, &key, iv, index).unwrap_or_default()
+    } else {
+        cascette_crypto::Arc4Cipher::new(&key).map(|mut a| a.encrypt(plain)).unwrap_or_default()
+    };
+    let mut d = vec![8];
+    d.extend_from_slice(&name.to_le_bytes());
+    d.push(iv.len() as u8);
+    d.extend_from_slice(iv);
+    d.push(et);
+    d.extend_from_slice(&ct);
+    d
+}
+
 /// element sizes of the vectors the parsers pre-size (taken by the model as parameters)
 fn cfg_line(c: &mut Ctx) {
     use std::mem::size_of;
@@ -1206,6 +1464,11 @@ fn cfg_line(c: &mut Ctx) {
         size_of::<cascette_client_storage::lru::lru_file::LruFileEntry>(),
     );
     c.s.line(&l, "ok");
+    // the key names of the key store handed to the BLTE decoders (decimal, sorted)
+    let mut names: Vec<u64> = key_store().iter().map(|k| k.id).collect();
+    names.sort_unstable();
+    let l = format!("keys {}", names.iter().map(|n| n.to_string()).collect::<Vec<_>>().join(" "));
+    c.s.line(&l, "ok");
 }
 
 fn main() {
@@ -1223,8 +1486,8 @@ fn main() {
     if let Some(rp) = &args.replay {
         cfg_line(&mut c);
         for l in read_case(rp) {
-            if l.starts_with("cfg ") {
-                continue; // sizes always come from the compiled crates
+            if l.starts_with("cfg ") || l.starts_with("keys ") {
+                continue; // sizes and key names always come from the compiled crates / this harness
             }
             let t: Vec<&str> = l.split(' ').collect();
             match t.as_slice() {
@@ -1264,13 +1527,19 @@ fn main() {
     for (p, sid) in &pairs {
         splice_cases(&mut c, p, sid);
     }
-    // 3. truncation at every length up to 64 and byte-level mutation
+    // 3. truncation (at every length up to 40 AND at every one of the last 96 offsets: trailers,
+    //    footers and epilogue lines are cut off too; the V1 MIME replies and the encrypted chunks at
+    //    EVERY byte offset) and byte-level mutation
     for (p, sid) in &pairs {
         let len = c.seeds[sid].len();
         let tmax = if thorough { 96 } else { 40 };
+        let tail = if thorough { 160 } else { 96 };
+        let every = matches!(p.as_str(), "mime" | "mimebpsv" | "mimesniff" | "encchunk") || sid.starts_with("blte_enc_");
         if len <= 4096 {
-            for n in 0..len.min(tmax) {
-                c.case(p, sid, &[Edit::Trunc(n)], "truncate");
+            for n in 0..len {
+                if n < tmax || n + tail >= len || every {
+                    c.case(p, sid, &[Edit::Trunc(n)], "truncate");
+                }
             }
         }
         let per = if thorough { 400 } else if len > 16 * 1024 { 12 } else { 60 };
@@ -1293,6 +1562,9 @@ fn main() {
             c.case("espec", "empty", &[Edit::App(e.into_bytes())], "espec-tokens");
         }
     }
+    // 3c. V1 MIME epilogue lines of every length; 3d. encrypted-chunk headers with known key names
+    mime_epilogue_cases(&mut c, thorough);
+    enc_header_cases(&mut c, thorough);
     // 4. thorough: every offset of the first 48 bytes × width × endianness × boundary value
     if thorough {
         for (p, sid) in &pairs {
